@@ -255,6 +255,8 @@ theorem findTm_energyFlux (hq : q.WF) (ht : IsTemplateOf t q.hydro) {vp vm Tp : 
   field_simp
 end eos
 
+/-! ## The transition strength `α(T)` and momentum-flux conservation -/
+
 section alpha
 variable {q : TPar} {t : TemplP}
 
@@ -334,43 +336,61 @@ def wNum (t : TemplP) : ℝ := (1 - 3 * t.alN) * t.mu - t.nu
 /-- denominator `D = (1 − 3α₊) μ − ν` of the exact enthalpy ratio -/
 def wDen (t : TemplP) (al : ℝ) : ℝ := (1 - 3 * al) * t.mu - t.nu
 
-theorem sign_mul_sign_of_pos {x y : ℝ} (h : 0 < x * y) : WG.R.sign x * WG.R.sign y = 1 := by
-  rcases pos_and_pos_or_neg_and_neg_of_mul_pos h with ⟨hx, hy⟩ | ⟨hx, hy⟩
-  · simp [WG.R.sign, hx, hy, not_lt.mpr hx.le, not_lt.mpr hy.le]
-  · simp [WG.R.sign, hx, hy]
-
-/-- When `N` and `D` have the same (non-zero) sign, the code returns `(|N| + 1e-100)/(|D| + 1e-100)`. -/
-theorem wFromAlpha_of_pos {t : TemplP} {al : ℝ} (h : 0 < wNum t * wDen t al) :
+/-- When `N·D ≥ 0` (same sign, or one of them zero) the code returns `(|N| + 1e-100)/(|D| + 1e-100)`.
+(Since WallGo commit 108cf41 the sign factor is `-1 if N·D < 0 else 1`; the old `np.sign(N)·np.sign(D)`
+returned `0` whenever `N = 0` or `D = 0`.) -/
+theorem wFromAlpha_of_nonneg {t : TemplP} {al : ℝ} (h : 0 ≤ wNum t * wDen t al) :
     wFromAlpha t al = (|wNum t| + reg) / (|wDen t al| + reg) := by
-  have hs := sign_mul_sign_of_pos h
-  unfold wNum wDen at hs
-  simp only [wFromAlpha, hs, one_mul]; rfl
+  have hs : ¬ (((1 - 3 * t.alN) * t.mu - t.nu) * ((1 - 3 * al) * t.mu - t.nu) < 0) := not_lt.mpr h
+  simp only [wFromAlpha, hs, if_false, one_mul]; rfl
 
-theorem wFromAlpha_pos {t : TemplP} {al : ℝ} (h : 0 < wNum t * wDen t al) : 0 < wFromAlpha t al := by
-  rw [wFromAlpha_of_pos h]
+/-- When `N·D < 0` the code returns `−(|N| + 1e-100)/(|D| + 1e-100)`. -/
+theorem wFromAlpha_of_neg {t : TemplP} {al : ℝ} (h : wNum t * wDen t al < 0) :
+    wFromAlpha t al = -((|wNum t| + reg) / (|wDen t al| + reg)) := by
+  have hs : ((1 - 3 * t.alN) * t.mu - t.nu) * ((1 - 3 * al) * t.mu - t.nu) < 0 := h
+  simp only [wFromAlpha, hs, if_true]
+  rw [neg_one_mul, neg_div]; rfl
+
+theorem wFromAlpha_of_pos {t : TemplP} {al : ℝ} (h : 0 < wNum t * wDen t al) :
+    wFromAlpha t al = (|wNum t| + reg) / (|wDen t al| + reg) := wFromAlpha_of_nonneg h.le
+
+/-- `wFromAlpha` is positive as soon as `N·D ≥ 0` (including `N = 0` or `D = 0`). -/
+theorem wFromAlpha_pos {t : TemplP} {al : ℝ} (h : 0 ≤ wNum t * wDen t al) : 0 < wFromAlpha t al := by
+  rw [wFromAlpha_of_nonneg h]
   have := reg_pos
   positivity
 
+/-- the sign of `wFromAlpha` is exactly the sign of `N·D` (with `+` at `0`). -/
+theorem wFromAlpha_pos_iff {t : TemplP} {al : ℝ} : 0 < wFromAlpha t al ↔ 0 ≤ wNum t * wDen t al := by
+  constructor
+  · intro h
+    by_contra hc
+    rw [wFromAlpha_of_neg (not_le.mp hc)] at h
+    have := reg_pos
+    have : 0 < (|wNum t| + reg) / (|wDen t al| + reg) := by positivity
+    linarith
+  · exact wFromAlpha_pos
+
 /-- Exact deviation of the regularised ratio from `N/D` (in the division-free form `D·w − N`). -/
-theorem wFromAlpha_defect {t : TemplP} {al : ℝ} (h : 0 < wNum t * wDen t al) :
+theorem wFromAlpha_defect {t : TemplP} {al : ℝ} (h : 0 ≤ wNum t * wDen t al) :
     |wDen t al * wFromAlpha t al - wNum t| = reg * |(|wDen t al| - |wNum t|)| / (|wDen t al| + reg) := by
   have hr := reg_pos
-  rw [wFromAlpha_of_pos h]
+  rw [wFromAlpha_of_nonneg h]
   have hpos : 0 < |wDen t al| + reg := by positivity
-  rcases pos_and_pos_or_neg_and_neg_of_mul_pos h with ⟨hN, hD⟩ | ⟨hN, hD⟩
-  · rw [abs_of_pos hN, abs_of_pos hD] at *
+  rcases mul_nonneg_iff.mp h with ⟨hN, hD⟩ | ⟨hN, hD⟩
+  · rw [abs_of_nonneg hN, abs_of_nonneg hD] at *
     have : wDen t al * ((wNum t + reg) / (wDen t al + reg)) - wNum t
         = reg * (wDen t al - wNum t) / (wDen t al + reg) := by field_simp; ring
     rw [this, abs_div, abs_mul, abs_of_pos hr, abs_of_pos hpos]
-  · rw [abs_of_neg hN, abs_of_neg hD] at *
+  · rw [abs_of_nonpos hN, abs_of_nonpos hD] at *
     have : wDen t al * ((-wNum t + reg) / (-wDen t al + reg)) - wNum t
         = - (reg * (-wDen t al - -wNum t) / (-wDen t al + reg)) := by field_simp; ring
     rw [this, abs_neg, abs_div, abs_mul, abs_of_pos hr, abs_of_pos hpos]
 
-theorem wFromAlpha_defect_le {t : TemplP} {al : ℝ} (h : 0 < wNum t * wDen t al) :
+theorem wFromAlpha_defect_le {t : TemplP} {al : ℝ} (h : 0 ≤ wNum t * wDen t al)
+    (hD : wDen t al ≠ 0) :
     |wDen t al * wFromAlpha t al - wNum t| ≤ reg * (1 + |wNum t / wDen t al|) := by
   have hr := reg_pos
-  have hD : wDen t al ≠ 0 := by rintro h0; rw [h0, mul_zero] at h; exact lt_irrefl _ h
   have hD' : 0 < |wDen t al| := abs_pos.mpr hD
   rw [wFromAlpha_defect h, mul_div_assoc]
   apply mul_le_mul_of_nonneg_left _ hr.le
@@ -383,6 +403,8 @@ theorem wFromAlpha_defect_le {t : TemplP} {al : ℝ} (h : 0 < wNum t * wDen t al
   have : 0 ≤ reg * (1 + |wNum t| / |wDen t al|) := by positivity
   linarith
 
+
+/-! ## `findMatching`, deflagration / hybrid branch: `T₊ = Tn·w₊^{1/μ}` -/
 
 section deflag
 variable {q : TPar} {t : TemplP}
@@ -625,6 +647,9 @@ theorem detVm_lt_one {t : TemplP} {v : ℝ} (hc0 : 0 < t.cb2) (hal : 0 ≤ t.alN
 
 /-! ## Fluid equations -/
 
+/-- sound speed squared used by `shockDE`: `csqHighT` in the shock wave, `csqLowT` in the rarefaction wave -/
+noncomputable abbrev csqOf (s : HydroP) (T : ℝ) (b : Bool) : ℝ := if b then s.csqHighT T else s.csqLowT T
+
 /-- `shockDE` in closed form. -/
 theorem shockDE_eq (s : HydroP) (v xi T : ℝ) (b : Bool) :
     shockDE s v (xi, T) b =
@@ -649,9 +674,6 @@ theorem dxiAndWdv_snd_eq {t : TemplP} {s : HydroP} {v xi w T : ℝ} (hT : T ≠ 
       = (1 + 1 / (if b then s.csqHighT T else s.csqLowT T)) * w / T * (shockDE s v (xi, T) b).2 := by
   cases b <;> simp [dxiAndWdv, shockDE, gammaSq, boostVelocity, hcs, hcb] <;> field_simp
 
-section deriv
-variable {q : TPar}
-
 theorem hasDerivAt_wH (q : TPar) {T : ℝ} (hT : 0 < T) :
     HasDerivAt q.hydro.wHighT (q.mu * q.hydro.wHighT T / T) T := by
   have h := (Real.hasDerivAt_rpow_const (x := T) (p := q.mu) (Or.inl hT.ne')).const_mul (q.mu * q.ap / 3)
@@ -665,8 +687,6 @@ theorem hasDerivAt_wL (q : TPar) {T : ℝ} (hT : 0 < T) :
   have e : q.nu * q.am / 3 * (q.nu * T ^ (q.nu - 1)) = q.nu * q.hydro.wLowT T / T := by
     simp only [TPar.hydro]; rw [Real.rpow_sub_one hT.ne']; field_simp
   rw [e] at h; exact h
-
-end deriv
 
 /-! ## Shock-front algebra (single phase, constant sound speed `p = w/μ − ε`) -/
 
@@ -895,13 +915,28 @@ theorem detVm_ne {t : TemplP} {v : ℝ} (hv : v ≠ 0) (hv1 : 1 - v ^ 2 ≠ 0) (
   have : v * (3 * t.cb2 * (1 - v ^ 2) * t.alN) ≠ 0 := by positivity
   contradiction
 
-/-! ## `wFromAlpha` at `N = 0` -/
+/-! ## `wFromAlpha` at `N = 0` and at `D = 0` -/
 
-/-- If `N = (1−3αN)μ − ν = 0` (on the template EOS: `ε = 0`) the `sign` factor is `0` and `wFromAlpha`
-returns `0` for every `α₊` — the `1e-100` regulators do not give the intended `0/0 → 1`. -/
-theorem wFromAlpha_of_N_zero {t : TemplP} (h : wNum t = 0) (al : ℝ) : wFromAlpha t al = 0 := by
-  unfold wNum at h
-  simp [wFromAlpha, h, WG.R.sign]
+/-- If `N = (1−3αN)μ − ν = 0` (on the template EOS: `ε = 0`), `wFromAlpha` returns the positive number
+`1e-100/(|D| + 1e-100)` (in particular `1` when also `D = 0`, the intended `0/0 → 1`).
+(Before WallGo commit 108cf41 the `np.sign` product made it return `0` for every `α₊`.) -/
+theorem wFromAlpha_of_N_zero {t : TemplP} (h : wNum t = 0) (al : ℝ) :
+    wFromAlpha t al = reg / (|wDen t al| + reg) := by
+  rw [wFromAlpha_of_nonneg (by rw [h, zero_mul]), h, abs_zero, zero_add]
+
+/-- If `D = (1−3α₊)μ − ν = 0`, `wFromAlpha` returns the very large positive number `(|N| + 1e-100)/1e-100`
+(the correct sign of the limit `N/D → ±∞` is not determined at `D = 0`; `+` is the relevant one for the
+bracket end `v₊ → vw⁻`). (Before WallGo commit 108cf41 it returned `0`.) -/
+theorem wFromAlpha_of_D_zero {t : TemplP} {al : ℝ} (h : wDen t al = 0) :
+    wFromAlpha t al = (|wNum t| + reg) / reg := by
+  rw [wFromAlpha_of_nonneg (by rw [h, mul_zero]), h, abs_zero, zero_add]
+
+/-- … and that number is `≥ 1`, `> 1` as soon as `N ≠ 0`. -/
+theorem one_lt_wFromAlpha_of_D_zero {t : TemplP} {al : ℝ} (h : wDen t al = 0) (hN : wNum t ≠ 0) :
+    1 < wFromAlpha t al := by
+  rw [wFromAlpha_of_D_zero h, lt_div_iff₀ reg_pos]
+  have := abs_pos.mpr hN
+  linarith
 
 /-! ## Constant sound speed in the high-temperature phase -/
 
@@ -1000,5 +1035,65 @@ theorem front_example_momentum :
   rw [boost_example, q0_wH_T0x, q0_pH_T0x, show q0.Tn = 1 from rfl, q0_wH_one, q0_pH_one]
   norm_num [gammaSq]
 
+
+/-! ## The bracket end `v₊ = vw` of `findMatching` when `μ = ν` (former `np.sign(0) = 0` defect)
+
+For `μ = ν` (e.g. the bag EOS, `cs² = cb² = 1/3`) and a subsonic wall (`vw ≤ cb`, `vpMax = vw`) the upper
+bracket end of `findMatching` is `v₊ = vw`, where `α₊ = 0` and `D = (1−3α₊)μ − ν = 0`. The exact enthalpy
+ratio `N/D` diverges to `+∞` as `v₊ → vw⁻`, where the `_shooting` residual tends to `1 − (μ−1) < 0`.
+The OLD code returned `w₊ = sign(N)·sign(0)·… = 0` there, for which the residual is `1 − 1/(μ−1) > 0` (same
+sign as at `v₊ = 0`), so `root_scalar` raised and `findMatching` returned `None` for every such `vw`
+(reproduced on the then-unchanged Python code; fixed in WallGo commit 108cf41:
+`sign = np.where(N*D < 0, -1.0, 1.0)`). The lemmas below state what holds NOW: `w₊` is the large positive
+number `(|N| + 1e-100)/1e-100` and the residual at that bracket end is negative for `μ > 2`, `N ≠ 0`. -/
+
+/-- At `v₊ = vw ≤ cb` with `μ = ν`: `_shooting` computes `v₋ = vw`, `α₊ = 0`, `w₊ = (|N| + 1e-100)/1e-100`. -/
+theorem shootAlpha_endpoint_of_mu_eq_nu {t : TemplP} (hmn : t.mu = t.nu) {vw : ℝ} (hvw : vw ≠ 0)
+    (hle : vw ≤ t.cb) : shootAlpha t vw vw = (vw, 0, (|wNum t| + reg) / reg) := by
+  have hm : WG.R.pmin t.cb vw = vw := by rw [WG.R.pmin_eq_min]; exact min_eq_right hle
+  have hal : (((((vw / vw) - (1 : ℝ)) * (((vw * vw) / t.cb2) - (1 : ℝ))) / ((1 : ℝ) - (vw ^ 2))) / (3 : ℝ))
+      = 0 := by
+    rw [div_self hvw]; simp
+  have hD : wDen t 0 = 0 := by unfold wDen; rw [hmn]; ring
+  simp only [shootAlpha, hm, hal, wFromAlpha_of_D_zero hD]
+
+/-- The `_shooting` residual in the branch `vw == vp` (`vpSW = vmSW = cs`) as a function of `wmSW = w`:
+`(μ−2)(1−w)/((μ−1)+w)`. -/
+theorem shootResidual_cs {t : TemplP} (hcs : t.cs ≠ 0) {w : ℝ} (hden : (t.mu - 1) + w ≠ 0) :
+    shootResidual t t.cs t.cs w = (t.mu - 2) * (1 - w) / ((t.mu - 1) + w) := by
+  unfold shootResidual; rw [div_self hcs]; field_simp; ring
+
+/-- It is negative for `μ > 2` and `w > 1` … -/
+theorem shootResidual_cs_neg {t : TemplP} (hcs : t.cs ≠ 0) (hmu : 2 < t.mu) {w : ℝ} (hw : 1 < w) :
+    shootResidual t t.cs t.cs w < 0 := by
+  have hden : 0 < (t.mu - 1) + w := by linarith
+  rw [shootResidual_cs hcs hden.ne']
+  apply div_neg_of_neg_of_pos _ hden
+  nlinarith
+
+/-- … in particular at the bracket end `v₊ = vw` when `μ = ν > 2`, `N ≠ 0` (on the template EOS: `ε ≠ 0`):
+the residual `_shooting(vw, vw)` (with `w₊` taken from `shootAlpha`) is negative, so together with a positive
+value at `v₊ = 0` the bracket of `findMatching` now has a sign change. (The old code had
+`shootResidual t cs cs 0 = 1 − 1/(μ−1) > 0` here.) -/
+theorem shootResidual_endpoint_neg {t : TemplP} (hmn : t.mu = t.nu) (hmu : 2 < t.mu) (hcs : t.cs ≠ 0)
+    (hN : wNum t ≠ 0) {vw : ℝ} (hvw : vw ≠ 0) (hle : vw ≤ t.cb) :
+    shootResidual t t.cs t.cs (shootAlpha t vw vw).2.2 < 0 := by
+  rw [shootAlpha_endpoint_of_mu_eq_nu hmn hvw hle]
+  have hD : wDen t 0 = 0 := by unfold wDen; rw [hmn]; ring
+  have := one_lt_wFromAlpha_of_D_zero hD hN
+  rw [wFromAlpha_of_D_zero hD] at this
+  exact shootResidual_cs_neg hcs hmu this
+
+/-- non-vacuity of `shootResidual_endpoint_neg`: the bag-like instance `t0` (`μ = ν = 4`, `N = −2/5`),
+`vw = 1/2 ≤ cb = 1/√3`. -/
+example : t0.mu = t0.nu ∧ 2 < t0.mu ∧ t0.cs ≠ 0 ∧ wNum t0 ≠ 0 ∧ (1 / 2 : ℝ) ≠ 0 ∧ (1 / 2 : ℝ) ≤ t0.cb := by
+  refine ⟨by rw [t0_mu, t0_nu], by rw [t0_mu]; norm_num, ?_, by rw [t0_wNum]; norm_num, by norm_num, ?_⟩
+  · rw [t0_isTemplate.cs, t0_cs2]; exact (Real.sqrt_pos.mpr (by norm_num)).ne'
+  · rw [t0_isTemplate.cb, t0_cb2]; apply Real.le_sqrt_of_sq_le; norm_num
+
+/-- value the OLD code produced at that bracket end (`w₊ = 0`): `1 − 1/(μ−1)`, positive for `μ > 2`. -/
+theorem shootResidual_endpoint_old {t : TemplP} (hcs : t.cs ≠ 0) :
+    shootResidual t t.cs t.cs 0 = 1 - 1 / (t.mu - 1) := by
+  unfold shootResidual; rw [div_self hcs]; simp
 
 end Lemmas.Template
